@@ -180,3 +180,79 @@ def ends_abruptly(stmts: List[ast.stmt]) -> Optional[str]:
         if a and b:
             return a if a == b else "mixed"
     return None
+
+
+# ---------------------------------------------------------------------------------------------
+# AST-level expansion: replace single-assignment locals and calls of small local helpers by the expressions they stand for,
+# so that a rule written for one expression still sees it after "introduce a local" / "extract a helper"
+
+import copy as _copy
+
+
+def helper_expression(fn_node) -> Optional[ast.AST]:
+    """the value of a helper as one expression: (docstring)? (if C: return A)* return B  ->  A if C else .. B; None otherwise"""
+    body = [st for st in fn_node.body if not (isinstance(st, ast.Expr) and isinstance(st.value, ast.Constant) and isinstance(st.value.value, str))]
+
+    def rec(stmts):
+        if not stmts:
+            return None
+        st = stmts[0]
+        if isinstance(st, ast.Return) and st.value is not None:
+            return st.value
+        if isinstance(st, ast.If):
+            a = rec(st.body)
+            b = rec(list(st.orelse) + list(stmts[1:])) if (st.orelse or stmts[1:]) else None
+            if a is not None and b is not None:
+                return ast.IfExp(test=st.test, body=a, orelse=b)
+        return None
+    return rec(body)
+
+
+class _Subst(ast.NodeTransformer):
+    def __init__(self, mapping):
+        self.mapping = mapping
+
+    def visit_Name(self, node):
+        if isinstance(node.ctx, ast.Load) and node.id in self.mapping:
+            return _copy.deepcopy(self.mapping[node.id])
+        return node
+
+
+def expand_ast(fn_node, expr: ast.AST, skip: Tuple[str, ...] = ()) -> ast.AST:
+    """copy of expr with (1) names that have exactly one plain assignment in fn_node (and are not parameters) replaced by the
+    assigned expression, (2) calls of functions defined inside fn_node whose value is a single (conditional) expression
+    replaced by that expression with the parameters substituted.  Applied repeatedly (bounded)."""
+    counts, defs = {}, {}
+    for st in statements(fn_node):
+        if isinstance(st, ast.Assign) and len(st.targets) == 1 and isinstance(st.targets[0], ast.Name):
+            counts[st.targets[0].id] = counts.get(st.targets[0].id, 0) + 1
+            defs[st.targets[0].id] = st.value
+        elif isinstance(st, (ast.AugAssign, ast.For)):
+            for n in ast.walk(st.target):
+                if isinstance(n, ast.Name):
+                    counts[n.id] = counts.get(n.id, 0) + 2
+    single = {k: v for k, v in defs.items() if counts.get(k) == 1 and k not in skip}
+    helpers = {}
+    for st in ast.walk(fn_node):
+        if isinstance(st, ast.FunctionDef) and st is not fn_node:
+            he = helper_expression(st)
+            if he is not None and not st.args.defaults and st.name not in skip:
+                helpers[st.name] = ([a.arg for a in st.args.args], he)
+
+    class _Calls(ast.NodeTransformer):
+        def visit_Call(self, node):
+            self.generic_visit(node)
+            if isinstance(node.func, ast.Name) and node.func.id in helpers and not node.keywords:
+                params, he = helpers[node.func.id]
+                if len(params) == len(node.args):
+                    return _Subst(dict(zip(params, node.args))).visit(_copy.deepcopy(he))
+            return node
+    out = _copy.deepcopy(expr)
+    for _ in range(4):
+        before = ast.dump(out)
+        out = _Subst(single).visit(out)
+        out = _Calls().visit(out)
+        ast.fix_missing_locations(out)
+        if ast.dump(out) == before:
+            break
+    return out
